@@ -1130,9 +1130,10 @@ Proof. split; vm_compute; reflexivity. Qed.
 Example e2e_colon_ambiguous : to_str_spec fs_ab (Some [58; 43; 60; 53]) true false true 0 = OK [97; 98; 58; 58; 58].
 Proof. vm_compute. reflexivity. Qed.
 
-(* the boundary of the model's domain ("valid for specs without newline"): in CPython '.' does not
-   match a newline and '$' also matches before a trailing newline, so
-   to_str("\n<5") raises ValueError and to_str("5\n") == 'ab   ', while the model reads: *)
+(* newline in a spec.  Before the repairs F29 / F30 (known_findings.json) CPython's '.' did not match a newline and '$'
+   also matched before a trailing newline, so to_str("\n<5") raised ValueError and to_str("5\n") == 'ab   ' - the
+   library deviated from the grammar exactly where these two examples sit (they used to be called "outside the
+   model's domain"; an independent counterexample hunt showed they were defects).  The repaired code reads, like the model: *)
 Example newline_fill_outside_domain : parse_string_format [10; 60; 53] =
   SFok {| sf_fill := Some 10; sf_flag := None; sf_align := ALeft; sf_width := [53] |}.
 Proof. reflexivity. Qed.
